@@ -4,6 +4,7 @@
 From Coq Require Import String List NArith ZArith Bool.
 From J5V.lib Require Import Outcome Corr.
 From J5V.model Require Import RulesDecl RulesWrite RulesSpec Validate RulesSpecDec Regex.
+From J5V.model Require Import RulesRead RulesNested RulesNestedSem RulesOneof.
 Import ListNotations.
 
 (* decidable equality on emitted annotations (transparent, so it computes) *)
@@ -51,7 +52,7 @@ Proof.
   decide equality. decide equality; apply str_eq_dec.
 Defined.
 Fixpoint pkind_eq_dec (a b : pkind) : {a = b} + {a <> b}.
-Proof. decide equality. Defined.
+Proof. decide equality; apply str_eq_dec. Defined.
 Definition fout_eq_dec : forall a b : fout, {a = b} + {a <> b}.
 Proof.
   decide equality; try apply str_eq_dec; try apply bool_dec; try apply N.eq_dec; try apply pkind_eq_dec.
@@ -100,7 +101,32 @@ Inductive c12case :=
 | C12Obj (env : enum_env) (ds : list prop) (obs : list fout) (msgs : list (list fvalue * verdict * option bool))
 (* the regular-expression engine on its own: a pattern, whether Go's regexp compiles
    it, and (text, regexp.MatchString) pairs *)
-| C12Re (p : str) (go_compiles : bool) (ms : list (str * bool)).
+| C12Re (p : str) (go_compiles : bool) (ms : list (str * bool))
+(* a oneof: the declared options, the emitted member fields, and per message (at most one
+   member set): what the real validator returned and the Go oracle's reading *)
+| C12Oneof (env : enum_env) (ds : list prop) (obs : list fout) (msgs : list (list fvalue * verdict * option bool))
+(* inline types: a declaration tree (root name Foo), the tree of messages the compiler
+   emitted, and per value of the root message (with the embedded messages of its inline
+   types): what the real validator returned (all violations, at any depth) and the Go
+   oracle's recursive reading of the declared rules *)
+| C12Tree (env : enum_env) (s : nschema) (obs : mtree) (vals : list (mvalue * verdict * option bool)).
+
+Fixpoint mtree_eqb_with (proj : fout -> fout) (a b : mtree) : bool :=
+  match a, b with
+  | MT o1 n1, MT o2 n2 =>
+      (if str_eq_dec (ro_name o1) (ro_name o2) then true else false)
+      && match ro_msgopt o1, ro_msgopt o2 with
+         | Some RObject, Some RObject | Some ROneof, Some ROneof | None, None => true
+         | _, _ => false
+         end
+      && list_eqb (fun x y => fout_eqb (proj x) (proj y)) (ro_fields o1) (ro_fields o2)
+      && (fix go (l1 l2 : list mtree) : bool :=
+            match l1, l2 with
+            | [], [] => true
+            | x :: r1, y :: r2 => mtree_eqb_with proj x y && go r1 r2
+            | _, _ => false
+            end) n1 n2
+  end.
 
 Definition c12_check (c : c12case) : bool :=
   match c with
@@ -116,6 +142,22 @@ Definition c12_check (c : c12case) : bool :=
       forallb (fun p => match p with (fvs, vd, g) =>
                   verdict_eqb (validate_obj re_frag_ok re_frag_match (defined_numbers env) obs fvs) vd
                   && spec_agree (rule_objb re_frag_match env ds fvs) g end) msgs
+  | C12Oneof env ds obs msgs =>
+      match write_members env ds with
+      | Ok os => list_eqb (fun x y => fout_eqb (c12_proj x) (c12_proj y)) os obs
+      | _ => false
+      end &&
+      forallb (fun p => match p with (fvs, vd, g) =>
+                  verdict_eqb (validate_obj re_frag_ok re_frag_match (defined_numbers env) obs fvs) vd
+                  && spec_agree (member_objb re_frag_match env ds fvs) g end) msgs
+  | C12Tree env s obs vals =>
+      match write_schema env [] [70;111;111]%N s with
+      | Ok m => mtree_eqb_with c12_proj (c12_view m) obs
+      | _ => false
+      end &&
+      forallb (fun p => match p with (mv, vd, g) =>
+                  verdict_eqb (validate_tree re_frag_ok re_frag_match (defined_numbers env) obs mv) vd
+                  && spec_agree (rule_treeb re_frag_match env s mv) g end) vals
   | C12Re p go_compiles ms =>
       (* the pattern lies in the modelled fragment; the parser agrees with Go on
          whether it compiles; the derivative matcher agrees with MatchString *)
